@@ -560,6 +560,9 @@ func main() {
 	// the real toolchain (go build + go vet) on the kernel and structure items
 	var keys []string
 	for _, in := range infos {
+		if len(in.it.Files) == 0 {
+			continue // nothing was generated (skip_go_gen): there is nothing to compile
+		}
 		if in.it.Exit == 0 && in.it.BuildErr == "" && bad[in.it.Key] == nil && (strings.HasPrefix(in.family, "kernel") || strings.HasPrefix(in.family, "structure")) && (thorough || in.cfg == "go: -r" || in.cfg == "fastgo: -r" || in.cfg == "go:") {
 			keys = append(keys, in.it.Key)
 		}
